@@ -19,10 +19,10 @@ import (
 	"sync"
 
 	"github.com/massnetorg/mass-core/logging"
-	"github.com/sirupsen/logrus"
 	"github.com/massnetorg/mass-core/massutil"
 	"github.com/massnetorg/mass-core/pocec"
 	"github.com/massnetorg/mass-core/wire"
+	"github.com/sirupsen/logrus"
 	"github.com/syndtr/goleveldb/leveldb"
 	"github.com/syndtr/goleveldb/leveldb/opt"
 	"massnet.org/mass/config"
@@ -1278,11 +1278,16 @@ type vfGenCfg struct {
 	BadPass    bool // draw ill-formed / non-current passphrases for privileged operations
 	Tamper     bool
 	Sign       bool
+	NoRndPass  bool // only passphrases from the pools (C04: random ones could coincide with hex text)
+	NoNilSeed  bool // always pass an explicit seed
 }
 
-func vfGenSeed(t *rapid.T) []byte {
+func vfGenSeed(t *rapid.T, noNil bool) []byte {
 	switch rapid.IntRange(0, 9).Draw(t, "seedKind") {
 	case 0:
+		if noNil {
+			return rapid.SliceOfN(rapid.Byte(), 32, 32).Draw(t, "seedN")
+		}
 		return nil
 	case 1, 2:
 		// small pool -> duplicates across keystores and wallets
@@ -1318,8 +1323,10 @@ func vfGenPrivSel(t *rapid.T, bad bool, label string) string {
 	}
 }
 
-func vfGenNewPass(t *rapid.T, bad bool, label string) string {
+func vfGenNewPass(t *rapid.T, bad bool, label string, noRnd ...bool) string {
 	switch k := rapid.IntRange(0, 11).Draw(t, label); {
+	case k == 8 && len(noRnd) > 0 && noRnd[0]:
+		return "lit:" + rapid.SampledFrom(vfPassPool).Draw(t, label+"Lit3")
 	case k <= 7:
 		return "lit:" + rapid.SampledFrom(vfPassPool).Draw(t, label+"Lit")
 	case k == 8:
@@ -1365,7 +1372,7 @@ func vfGenWOp(t *rapid.T, cfg *vfGenCfg) vfWOp {
 	}
 	switch op.K {
 	case "new":
-		op.Seed = vfGenSeed(t)
+		op.Seed = vfGenSeed(t, cfg.NoNilSeed)
 		op.Pass = vfGenPrivSel(t, cfg.BadPass, "newPass")
 		if op.Pass == "cur" && rapid.IntRange(0, 5).Draw(t, "newLit") == 0 {
 			op.Pass = "lit:" + rapid.SampledFrom(vfPassPool).Draw(t, "newPassLit")
@@ -1384,7 +1391,7 @@ func vfGenWOp(t *rapid.T, cfg *vfGenCfg) vfWOp {
 		}
 	case "chpriv":
 		op.Pass = vfGenPrivSel(t, cfg.BadPass, "oldPriv")
-		op.New = vfGenNewPass(t, cfg.BadPass, "newPriv")
+		op.New = vfGenNewPass(t, cfg.BadPass, "newPriv", cfg.NoRndPass)
 	case "chpub":
 		if rapid.IntRange(0, 4).Draw(t, "oldPubKind") == 0 {
 			op.Pass = vfGenPrivSel(t, true, "oldPubSel")
